@@ -538,6 +538,15 @@ var fwViews = []ViewSpec{
 	{EmptyEKUExt: true}, // extKeyUsage present but empty: still "no EKU at all"
 	{EmptyEKUExt: true, Emails: []string{"a@example.com"}},
 	{EmptyEKUExt: true, Policies: []string{"1.2.3.4"}},
+	// policy identifiers that are *near* the reserved ones (a sibling, the parent arc, a child, the next free number): only the
+	// listed identifiers put a certificate in a scope
+	{EKUs: []string{"1.3.6.1.5.5.7.3.2"}, Policies: []string{"2.23.140.1.5.1.4"}},
+	{EKUs: []string{"1.3.6.1.5.5.7.3.2"}, Policies: []string{"2.23.140.1.5.5.1"}},
+	{EKUs: []string{"1.3.6.1.5.5.7.3.2"}, Policies: []string{"2.23.140.1.5.2"}},
+	{EKUs: []string{"1.3.6.1.5.5.7.3.2"}, Policies: []string{"2.23.140.1.5.1.1.1", "2.23.140.1.5"}},
+	{EKUs: []string{"1.3.6.1.5.5.7.3.2"}, Policies: []string{"2.23.140.1.2", "2.23.140.1.2.4", "2.23.140.1.2.1.1"}},
+	{EKUs: []string{"1.3.6.1.5.5.7.3.2"}, Policies: []string{"2.23.140.1.4", "2.23.140.1.4.2", "2.23.140.1.3.1", "2.23.140.1.31"}},
+	{EKUs: []string{"1.3.6.1.5.5.7.3.2", "1.3.6.1.5.5.7.3.4"}}, // clientAuth + emailProtection, no mailbox
 }
 
 const fwE = int64(1600000000) // effective instant used by scripted lints
